@@ -70,7 +70,7 @@ fn dce_block_with_live(
                                 live.insert(u.clone());
                             }
                             // Keep side effects before the declaration in final order
-                            out.push(ast::Stmt::Expr(v));
+                            out.push(keep_effects(v));
                         }
                         // Keep declaration without initializer
                         out.push(ast::Stmt::VarDecl {
@@ -95,14 +95,19 @@ fn dce_block_with_live(
                         for u in &used_rhs {
                             live.insert(u.clone());
                         }
-                        out.push(ast::Stmt::Expr(v));
+                        out.push(keep_effects(v));
                     }
                 }
             }
             ast::Stmt::Assignment { name, value } => {
                 let value = dce_expr(value);
                 let used_rhs = vars_used_in_expr(&value);
-                if live.contains(&name) {
+                if name == "_" {
+                    for u in &used_rhs {
+                        live.insert(u.clone());
+                    }
+                    out.push(ast::Stmt::Assignment { name, value });
+                } else if live.contains(&name) {
                     // This assignment feeds a later rvalue use; keep it and require a prior decl
                     for u in &used_rhs {
                         live.insert(u.clone());
@@ -116,7 +121,7 @@ fn dce_block_with_live(
                         for u in &used_rhs {
                             live.insert(u.clone());
                         }
-                        out.push(ast::Stmt::Expr(value));
+                        out.push(keep_effects(value));
                     }
                 }
             }
@@ -593,6 +598,58 @@ fn free_vars_in_block(b: &ast::Block) -> HashSet<String> {
     &used - &declared
 }
 
+fn is_integer_type(ty: &crate::go::goty::GoType) -> bool {
+    use crate::go::goty::GoType;
+    matches!(
+        ty,
+        GoType::TInt8
+            | GoType::TInt16
+            | GoType::TInt32
+            | GoType::TInt64
+            | GoType::TUint8
+            | GoType::TUint16
+            | GoType::TUint32
+            | GoType::TUint64
+    )
+}
+
+/// Statement that evaluates `value` only for its effects. Go accepts a bare expression
+/// statement only for calls of ordinary functions; results of builtins (`append`, `len`,
+/// conversions) and non-call expressions must be used, so they are assigned to `_`.
+fn keep_effects(value: ast::Expr) -> ast::Stmt {
+    let plain_call = match &value {
+        ast::Expr::Call { func, .. } => match func.as_ref() {
+            ast::Expr::Var { name, .. } => !matches!(
+                name.as_str(),
+                "append"
+                    | "len"
+                    | "cap"
+                    | "string"
+                    | "int8"
+                    | "int16"
+                    | "int32"
+                    | "int64"
+                    | "uint8"
+                    | "uint16"
+                    | "uint32"
+                    | "uint64"
+                    | "float32"
+                    | "float64"
+            ),
+            _ => true,
+        },
+        _ => false,
+    };
+    if plain_call {
+        ast::Stmt::Expr(value)
+    } else {
+        ast::Stmt::Assignment {
+            name: "_".to_string(),
+            value,
+        }
+    }
+}
+
 fn expr_has_side_effects(e: &ast::Expr) -> bool {
     match e {
         ast::Expr::Call { .. } => true,
@@ -605,14 +662,15 @@ fn expr_has_side_effects(e: &ast::Expr) -> bool {
                     .unwrap_or(false)
         }
         ast::Expr::FieldAccess { obj, .. } => expr_has_side_effects(obj),
-        ast::Expr::Index { array, index, .. } => {
-            expr_has_side_effects(array) || expr_has_side_effects(index)
-        }
+        // Indexing, type assertions and integer division can fail at run time: dropping them
+        // would let a program run past the point where it must stop.
+        ast::Expr::Index { .. } | ast::Expr::Cast { .. } => true,
         ast::Expr::UnaryOp { expr, .. } => expr_has_side_effects(expr),
-        ast::Expr::BinaryOp { lhs, rhs, .. } => {
-            expr_has_side_effects(lhs) || expr_has_side_effects(rhs)
+        ast::Expr::BinaryOp { op, lhs, rhs, ty } => {
+            (matches!(op, ast::GoBinaryOp::Div) && is_integer_type(ty))
+                || expr_has_side_effects(lhs)
+                || expr_has_side_effects(rhs)
         }
-        ast::Expr::Cast { expr, .. } => expr_has_side_effects(expr),
         ast::Expr::StructLiteral { fields, .. } => {
             fields.iter().any(|(_, e)| expr_has_side_effects(e))
         }
